@@ -130,7 +130,7 @@ PROPS = {
         module="Anonymongo.Props.C06",
         theorems=["Anonymongo.C07_others", "Anonymongo.C07_long", "Anonymongo.C06_faultfree", "Anonymongo.C03_line"],
         extra_modules=["Anonymongo.Props.C03"],
-        corr=["text", "line", "stream", "sweep", "arb"],
+        corr=["text", "line", "stream", "sweep", "arb", "misc"],
         statement="the model's line function is total by construction (every Go type assertion / index is a checked match in the model); one line yields at most one output line and leaves the others untouched (C07_others); the scan stops with an error exactly at the first line longer than 65535 bytes and delivers the lines strictly before it (C07_long)",
         partial="that the Go code does not panic where the model answers cannot be proved about Go: it is the correspondence (panics are recovered by the harness and reported as a disagreement) on hostile inputs: every JSON token class, truncations, byte flips, invalid UTF-8, wrong value kinds under every table key and extended-JSON wrapper, nesting depth 20000",
     ),
